@@ -9,6 +9,6 @@ for d in "$@"; do
   [ -f "$d/meta.json" ] || continue
   check=$(python3 -c "import json,re,sys; m=json.load(open('$d/meta.json')); r=re.search(r'try.sh (C\d+)', m['verified'].get('check_run','')); print(r.group(1) if r else m['breaks_property'])")
   if ! (cd /repo && git apply --check "$V/$d/patch.diff" 2>/dev/null); then echo "NOAPPLY  $d ($check)"; continue; fi
-  out=$(TRY_LINES=400 VERIF_WORKERS=${VERIF_WORKERS:-8} mutants/try.sh "$check" "$d/patch.diff" 2>&1 | tail -1)
+  out=$(TRY_LINES=400 VERIF_BUDGET_S=${VERIF_BUDGET_S:-900} VERIF_WORKERS=${VERIF_WORKERS:-8} mutants/try.sh "$check" "$d/patch.diff" 2>&1 | tail -1)
   case "$out" in *exit=1) echo "DETECTED $d ($check)";; *) echo "MISSED   $d ($check) $out";; esac
 done
